@@ -2,6 +2,7 @@
 //verif:replace@C12a regexp.Compile = c12Compile
 //verif:replace@C12b regexp.Compile = c12Compile
 //verif:replace@C12c regexp.Compile = c12Compile
+//verif:replace@C11f regexp.Compile = c12Compile
 //verif:replace@C04f regexp.Compile = c12Compile
 
 package clients
@@ -189,7 +190,12 @@ func c12RoundTrip(args config.Args, mode int) {
 
 // VerifC12cMap: a dmap request: the query text (with n arbitrary bytes inside a
 // quoted string) and the per-file read commands reach the server unchanged.
-func VerifC12cMap(n int) {
+func VerifC12cMap(n int) { c12cMap(n, true) }
+
+// VerifC11fMapQueryText: the same without the --timeout form (registered for C11).
+func VerifC11fMapQueryText(n int) { c12cMap(n, false) }
+
+func c12cMap(n int, withTimeout bool) {
 	dlog.VerifInstall(source.Client)
 	config.Server.MapreduceLogFormat = "generickv"
 	lit := verifrt.String("lit", n)
@@ -204,7 +210,9 @@ func VerifC12cMap(n int) {
 	args.Mode = omode.MapClient
 	args.Quiet = verifrt.Bool("quiet")
 	args.Plain = verifrt.Bool("plain")
-	args.Timeout = []int{0, 5}[verifrt.Choose("timeout", 2)]
+	if withTimeout {
+		args.Timeout = []int{0, 5}[verifrt.Choose("timeout", 2)]
+	}
 	c := MaprClient{baseClient: baseClient{Args: args}}
 	q, err := mapr.NewQuery(queryStr)
 	verifrt.Assert(err == nil, "client rejects the query")
